@@ -9,11 +9,17 @@ Fixpoint bytes_of (s : string) : list N :=
 Definition strip_ws (l : list N) : list N := filter (fun c => negb ((c =? 9) || (c =? 10) || (c =? 32))) l.
 Definition src (s : string) : list N := strip_ws (bytes_of s).
 
-(* the supported DS digest types and DNSKEY algorithms, as numbers *)
-Lemma gen_supported_digests : map digest_code supported_ds_digest_names = [1; 2; 4].
+(* the supported DS digest types and DNSKEY algorithms, as numbers: every octet value, exhaustively *)
+Definition octets : list N := map N.of_nat (seq 0 256).
+Lemma gen_supported_digests : filter go_IsSupportedDSDigest octets = [1; 2; 4].
 Proof. vm_compute. reflexivity. Qed.
-Lemma gen_supported_algs : map alg_code supported_dnskey_alg_names = [5; 7; 8; 10; 13; 14; 15].
+Lemma gen_supported_algs : filter go_IsSupportedDNSKEYAlgorithm octets = [5; 7; 8; 10; 13; 14; 15].
 Proof. vm_compute. reflexivity. Qed.
+Lemma gen_supported_is_translated : forall dt a,
+  supported_digest dt = go_IsSupportedDSDigest dt /\ supported_alg a = go_IsSupportedDNSKEYAlgorithm a.
+Proof. intros; split; reflexivity. Qed.
+Lemma gen_zone_masks : sig_candidate_zone_mask = 256 /\ ds_candidate_zone_mask = sig_candidate_zone_mask.
+Proof. vm_compute. split; reflexivity. Qed.
 Lemma gen_supported_ds_src : map strip_ws supported_ds_src = [src "IsSupportedDSDigest(ds.DigestType) && IsSupportedDNSKEYAlgorithm(ds.Algorithm)"].
 Proof. vm_compute. reflexivity. Qed.
 Lemma gen_root_ds_digest : root_ds_digest = 2.
